@@ -1,7 +1,9 @@
-(* C04: the hypothesis of the morphism round trip is necessary - a two-iso witness. *)
+(* C04: the hypothesis of the morphism round trip is necessary - a two-iso witness;
+   the hypotheses of the full theorems (join_frame, shapeN_nfold, morphism_roundtrip) are satisfiable. *)
 From Coq Require Import List String Bool Arith ZArith.
-From Golem Require Import Optics.GenPrelude Optics.Examples.
-From GolemGen Require Import GenHseq GenOptics.
+From Golem Require Import Optics.GenPrelude Optics.Examples Optics.LensFacts Optics.CombFacts Optics.FocusFacts
+  Optics.GenShapeFacts.
+From GolemGen Require Import GenHseq GenOptics GenShape.
 Import ListNotations.
 Open Scope res_scope.
 
@@ -22,4 +24,79 @@ Lemma morphism_needs_disjoint_targets :
 Proof.
   eexists. eexists. split; [vm_compute; reflexivity|]. split; [vm_compute; reflexivity|].
   vm_compute. intro H. discriminate H.
+Qed.
+
+Ltac in_cases H :=
+  repeat (destruct H as [H|H]; [try discriminate H; try (injection H as H; subst)|]); try contradiction H.
+
+(* .. and that witness violates nothing but the hypothesis on target foci: every entry has a lawful source optic and a
+   focused target optic (the first hypothesis of morphism_roundtrip); the two entries differ and share the target focus *)
+Lemma w_seq_entries_ok : forall i, In (Some i) w_seq ->
+  lawful (i_sa i) 8 /\ focused (i_ta i) 8 (footprint (i_ta i)).
+Proof.
+  intros i H. vm_compute in H. in_cases H; (split; [exact (field_lawful _)|exact (field_focused _)]).
+Qed.
+
+Lemma w_seq_targets_overlap : exists i j, w_seq = [Some i; Some j] /\ i <> j /\
+  footprint (i_ta i) = [(0, 8)] /\ footprint (i_ta j) = [(0, 8)].
+Proof.
+  eexists. eexists. split; [vm_compute; reflexivity|].
+  split; [intro H; discriminate H|]. split; reflexivity.
+Qed.
+
+(* ---- the hypotheses of the full theorems are satisfiable (non-vacuity) ---------------------------------------- *)
+(* a morphism over KAB with two different isos (A -> B, B -> A), nil entries and a repeated entry *)
+Definition r_seq : list (option iso) :=
+  match ForProduct1 KAB t_int64 ["A"%string], ForProduct1 KAB t_int64 ["B"%string] with
+  | Ok a, Ok b => [None; Some (mkIso a b); None; Some (mkIso b a); Some (mkIso a b); None]
+  | _, _ => []
+  end.
+
+Lemma r_seq_entries_ok : forall i, In (Some i) r_seq ->
+  lawful (i_sa i) 8 /\ focused (i_ta i) 8 (footprint (i_ta i)).
+Proof.
+  intros i H. vm_compute in H. in_cases H; (split; [exact (field_lawful _)|exact (field_focused _)]).
+Qed.
+
+Lemma r_seq_targets_ok : forall i j, In (Some i) r_seq -> In (Some j) r_seq ->
+  i = j \/ disjoint_fp (footprint (i_ta i)) (footprint (i_ta j)).
+Proof.
+  intros i j Hi Hj. vm_compute in Hi. vm_compute in Hj. in_cases Hi; in_cases Hj;
+    first [left; reflexivity | right; apply disjointb_sound; vm_compute; reflexivity].
+Qed.
+
+(* Forward swaps A and B into the target; Inverse returns and leaves both structures as they were *)
+Lemma r_seq_runs : exists w1,
+  morphism_forward r_seq w_start = Ok w1 /\ mt w1 = (repeat 2%Z 8 ++ repeat 1%Z 8)%list /\
+  morphism_inverse r_seq w1 = Ok w1.
+Proof. eexists. split; [vm_compute; reflexivity|]. split; vm_compute; reflexivity. Qed.
+
+(* a shape2 over KAB: the component lenses are focused on disjoint foci, and Put returns *)
+Lemma shape2_hyps_ok : exists lens,
+  ForShape2 KAB t_int64 t_int64 ["A"; "B"]%string = Ok lens /\
+  focused (shape2_a lens) 8 [(0, 8)] /\ focused (shape2_b lens) 8 [(8, 8)] /\
+  ForallOrdPairs disjoint_fp [[(0, 8)]; [(8, 8)]] /\
+  shape2_Put lens 0 (repeat 7%Z 8) (repeat 9%Z 8) (repeat 0%Z 16) = Ok (0, (repeat 7%Z 8 ++ repeat 9%Z 8)%list).
+Proof.
+  eexists. split; [vm_compute; reflexivity|]. cbn [shape2_a shape2_b].
+  split; [exact (field_focused _)|]. split; [exact (field_focused _)|]. split.
+  - repeat constructor. apply disjointb_sound. vm_compute. reflexivity.
+  - vm_compute. reflexivity.
+Qed.
+
+(* a Join chain of depth 3 on K2 is positional: its computed footprint (the 16 bytes of S) is its frame *)
+Lemma k2_chain_framed :
+  match ForProduct1 K2 K2A [], ForProduct1 K2A K2B [], ForProduct1 K2B K2C [], ForProduct1 K2C t_string ["S"]%string with
+  | Ok a, Ok b, Ok c, Ok d =>
+      let j := Join (Join (Join a b) c) d in footprint j = [(32, 16)] /\ framed j 16 (footprint j)
+  | _, _, _, _ => False
+  end.
+Proof.
+  destruct (ForProduct1 K2 K2A []) as [a|] eqn:Ea; [|vm_compute in Ea; discriminate Ea].
+  destruct (ForProduct1 K2A K2B []) as [b|] eqn:Eb; [|vm_compute in Eb; discriminate Eb].
+  destruct (ForProduct1 K2B K2C []) as [c|] eqn:Ec; [|vm_compute in Ec; discriminate Ec].
+  destruct (ForProduct1 K2C t_string ["S"%string]) as [d|] eqn:Ed; [|vm_compute in Ed; discriminate Ed].
+  vm_compute in Ea, Eb, Ec, Ed.
+  injection Ea as Ea. injection Eb as Eb. injection Ec as Ec. injection Ed as Ed. subst a b c d.
+  split; [vm_compute; reflexivity|]. apply chain_framed. reflexivity.
 Qed.
